@@ -128,6 +128,15 @@ func (h *decHooks) Call(in *sym.Interp, fr *sym.Frame, site ssa.CallInstruction,
 		}
 		// a call through a value that is, on every path, one of the operand decoders (the palette's per-format
 		// colour decoder): one operand read whose decoder is the selection
+		// ... or an entry of a constant table of such decoders selected by an index
+		if !cc.IsInvoke() && len(args) >= 1 && args[0].Op == "index" && args[0].Args[0].Op == "agg" {
+			tbl := args[0].Args[0]
+			cur := tbl.Args[len(tbl.Args)-1]
+			for i := len(tbl.Args) - 2; i >= 0; i-- {
+				cur = sym.Ite(sym.Bin(token.EQL, args[0].Args[1], sym.Int(int64(i)), nil), tbl.Args[i], cur)
+			}
+			args = append([]*sym.Term{cur}, args[1:]...)
+		}
 		if !cc.IsInvoke() && len(args) >= 1 && args[0].Op == "ite" {
 			leaves := sym.DeepCases(args[0], 16)
 			var names []string
